@@ -150,7 +150,7 @@ fn map_spec(sl: &[Sl], a: usize, b: usize) -> Option<(usize, usize)> {
     Some((start, end))
 }
 
-/// `--legacy`: the harness is built against a tree with fix 7ed96a0 reverted; only the lex tie is
+/// `--legacy`: the harness is built against a tree with fix 7940035 reverted; only the lex tie is
 /// emitted, into group `lexlegacy` (checked against `iter_segments_legacy`), nothing is judged.
 static LEGACY: std::sync::atomic::AtomicBool = std::sync::atomic::AtomicBool::new(false);
 fn legacy() -> bool {
